@@ -43,15 +43,11 @@ def jobs(tier, seed):
     else:
         for s, e in _pairs(3, 3, "all"):
             out.append(dict(h="astar", r=3, c=3, s=list(s), e=list(e)))
-        for r, c in [(3, 4), (4, 3)]:
-            for s, e in [((0, 0), (r - 1, c - 1)), ((r - 1, c - 1), (0, 0)), ((0, c - 1), (r - 1, 0)), ((1, 1), (r - 1, c - 1)),
-                         ((0, 0), (1, 1)), ((r - 1, 0), (0, c - 1))]:
-                out.append(dict(h="astar", r=r, c=c, s=list(s), e=list(e), max_seconds=3000))
     if tier != "quick":
-        # a wide grid (cols >= rows + 6): one far-apart endpoint pair on 2x8, the 2^22 mazes split over 32 instances by five bits next to the start
+        # a wide grid (cols >= rows + 6): one far-apart endpoint pair on 2x8, the 2^22 mazes split over 64 instances by six bits next to the start
         import itertools as _it
 
-        names = ["c_0_0_7", "c_1_0_6", "c_1_1_6", "c_0_0_6", "c_1_0_5"]
+        names = ["c_0_0_7", "c_1_0_6", "c_1_1_6", "c_0_0_6", "c_1_0_5", "c_1_1_5"]
         for vals in _it.product([False, True], repeat=len(names)):
             out.append(dict(h="astar", r=2, c=8, s=[0, 7], e=[1, 0], fix=dict(zip(names, vals)), max_seconds=3300,
                             label="astar:2x8:(0,7)->(1,0):" + "".join("1" if v else "0" for v in vals)))
@@ -378,7 +374,7 @@ META = dict(
     bounds=dict(
         quick="all connection structures (every bit symbolic) on all grids r x c with r*c <= 6 and all ordered (start,end) pairs; 3x3 with 12 pairs; larger grids around seeded dense base mazes with 4 symbolic bits and 6 endpoint pairs each (4x3: 3 bases, 4x4: 5, 5x5: 8, 3x5: 2, 6x6: 4); "
               "mazes carrying accurate generation metadata (a recorded component of 1-3 cells, queries among the other cells; all other bits symbolic); histories of queries on one maze object (two from the same start; on 2x3 also the reverse and a repeat) on 2x3, 2x4 and 3x3 (18 seeded histories)",
-        thorough="as quick (query histories: 40 on 3x3, 28 on 2x3 / 2x4), plus 3x3 all 81 pairs, 3x4 and 4x3 with 6 pairs each, 2x8 (all 2^22 mazes) for the pair (0,7)->(1,0), solve_targeted on 3x3 all pairs",
+        thorough="as quick (query histories: 40 on 3x3, 28 on 2x3 / 2x4), plus 3x3 all 81 pairs, seeded dense bases up to 8x8 and 2x9, 2x8 (all 2^22 mazes) for the pair (0,7)->(1,0), solve_targeted on 3x3 all pairs",
     ),
     degenerate={},
     stubs=stubs_description(),
